@@ -59,7 +59,7 @@ def decPair? (f g : String → Option Nat) (t : String) : Option (Nat × Nat) :=
 def decFin? (t : String) : Option Fin :=
   match t.toList with
   | 'e' :: r => (String.ofList r).toNat?.map Fin.exit
-  | 'a' :: r => (String.ofList r).toNat?.map Fin.abort
+  | 'a' :: r => (String.ofList r).toNat?.map fun g => Fin.abort g 1
   | _ => none
 
 def run (st : St) (f : Life.St → Life.St × Out) : St × String :=
